@@ -203,6 +203,17 @@ Definition tag_body (p : fparams) (t : ty) (tag : N) (body : bytes) : bytes :=
 Definition concat_opt (l : list (option bytes)) : option (list bytes) :=
   fold_right (fun x acc => match x, acc with Some b, Some r => Some (b :: r) | _, _ => None end) (Some []) l.
 
+(* the elements of a slice, each through makeField with empty parameters *)
+Fixpoint elems_enc (mf : value -> option bytes) (vs : vals) : option (list bytes) :=
+  match vs with
+  | VNil => Some []
+  | VCons x r =>
+      match mf x, elems_enc mf r with
+      | Some b, Some l => Some (b :: l)
+      | _, _ => None
+      end
+  end.
+
 (* makeField / makeBody *)
 Fixpoint make_field (p : fparams) (t : ty) (v : value) {struct t} : option bytes :=
   if omitted p t v then Some []
@@ -241,15 +252,7 @@ Fixpoint make_field (p : fparams) (t : ty) (v : value) {struct t} : option bytes
                    | TStruct _ fs, VStruct _ vs => make_fields fs vs
                    | TSlice _ e, VNull => Some []
                    | TSlice _ e, VList vs =>
-                       match (fix elems (vs : vals) : option (list bytes) :=
-                                match vs with
-                                | VNil => Some []
-                                | VCons x r =>
-                                    match make_field no_params e x, elems r with
-                                    | Some b, Some l => Some (b :: l)
-                                    | _, _ => None
-                                    end
-                                end) vs with
+                       match elems_enc (make_field no_params e) vs with
                        | Some l => Some (concat (if set then sort_encodings l else l))
                        | None => None
                        end
